@@ -28,17 +28,21 @@ Definition sends_on (a : act) (k : nat) (v : val) : Prop := a = ASend k v \/ a =
 Definition skippable (a : act) : Prop :=
   a = APoll \/ (exists k, a = ATok k) \/ (exists d, a = ASleep d) \/ (exists d, a = ASleepSel d).
 
+Definition sleepy (a : act) : Prop := (exists d, a = ASleep d) \/ (exists d, a = ASleepSel d).
+Lemma sleepy_skippable a : sleepy a -> skippable a.
+Proof. unfold skippable. intros [H|H]; auto. Qed.
+
 Inductive ctl_next : wctl -> wctl -> Prop :=
 | CN_loop : ctl_next (WRun false []) WRecv
 | CN_skip eof h rest : skippable h -> ctl_next (WRun eof (h :: rest)) (WRun eof rest)
-| CN_sleep eof h rest u sel : skippable h -> ctl_next (WRun eof (h :: rest)) (WSleep u sel eof rest)
+| CN_sleep eof h rest u sel : sleepy h -> ctl_next (WRun eof (h :: rest)) (WSleep u sel eof rest)
 | CN_wake u sel eof rest : ctl_next (WSleep u sel eof rest) (WRun eof rest).
 
 Lemma skippable_emits k h rest : skippable h -> emits k (h :: rest) = emits k rest.
 Proof. intros [->|[[x ->]|[[d ->]|[d ->]]]]; reflexivity. Qed.
 
 Lemma ctl_next_pend ctl ctl' k : ctl_next ctl ctl' -> pend k ctl' = pend k ctl.
-Proof. intros H; destruct H; simpl; auto; symmetry; apply skippable_emits; auto. Qed.
+Proof. intros H; destruct H; simpl; auto; symmetry; apply skippable_emits; auto using sleepy_skippable. Qed.
 Lemma ctl_next_incl ctl ctl' : ctl_next ctl ctl' -> incl (todo_of ctl') (todo_of ctl).
 Proof. intros H; destruct H; simpl; auto using incl_refl, incl_tl, incl_nil_l. Qed.
 Lemma ctl_next_eof ctl ctl' :
@@ -98,7 +102,7 @@ Proof.
   - destruct todo as [|a rest].
     + destruct eof.
       * inversion H; subst. apply WE_finish; rewrite ?Ec; simpl; auto; try congruence; eauto 6.
-      * inversion H; subst. apply WE_ctl; rewrite ?Ec; constructor; unfold skippable; eauto.
+      * inversion H; subst. apply WE_ctl; rewrite ?Ec; constructor; unfold skippable, sleepy; eauto.
     + destruct a as [k v|k v| |k|d|d|].
       * (* ASend *)
         destruct ((has_room (outs s k) || cclosed (outs s k)) && (negb (cancelled s) || ch)) eqn:E1.
@@ -115,21 +119,21 @@ Proof.
       * (* APoll *)
         destruct (cancelled s) eqn:Ecn; inversion H; subst.
         -- apply WE_finish; rewrite ?Ec; simpl; auto; try congruence; eauto 6.
-        -- apply WE_ctl; rewrite ?Ec; constructor; unfold skippable; eauto.
+        -- apply WE_ctl; rewrite ?Ec; constructor; unfold skippable, sleepy; eauto.
       * (* ATok *)
         destruct ((negb match cbuf (outs s k) with [] => true | _ :: _ => false end || cclosed (outs s k))
                   && (negb (cancelled s) || ch)) eqn:E1.
         -- destruct (cbuf (outs s k)) as [|t r] eqn:Eb; inversion H; subst.
-           ++ apply WE_ctl; rewrite ?Ec; constructor; unfold skippable; eauto.
+           ++ apply WE_ctl; rewrite ?Ec; constructor; unfold skippable, sleepy; eauto.
            ++ eapply WE_tok; eauto.
         -- destruct (cancelled s) eqn:Ecn; [|discriminate]. inversion H; subst.
            apply WE_finish; rewrite ?Ec; simpl; auto; try congruence; eauto 6.
-      * inversion H; subst. apply WE_ctl; rewrite ?Ec; constructor; unfold skippable; eauto.
-      * inversion H; subst. apply WE_ctl; rewrite ?Ec; constructor; unfold skippable; eauto.
+      * inversion H; subst. apply WE_ctl; rewrite ?Ec; constructor; unfold skippable, sleepy; eauto.
+      * inversion H; subst. apply WE_ctl; rewrite ?Ec; constructor; unfold skippable, sleepy; eauto.
       * inversion H; subst. apply WE_finish; rewrite ?Ec; simpl; auto; try congruence; eauto 6.
   - (* WSleep *)
     destruct (N.leb until (now s) && (negb (sel && cancelled s) || ch)) eqn:E1.
-    + inversion H; subst. apply WE_ctl; rewrite ?Ec; constructor; unfold skippable; eauto.
+    + inversion H; subst. apply WE_ctl; rewrite ?Ec; constructor; unfold skippable, sleepy; eauto.
     + destruct (sel && cancelled s) eqn:Esc; [|discriminate]. inversion H; subst.
       apply andb_prop in Esc. destruct Esc as [_ Ecn].
       apply WE_finish; rewrite ?Ec; simpl; auto; try congruence; eauto 6.
